@@ -258,6 +258,9 @@ pub struct Profile {
     pub apps_max: u32,
     /// chance that an app is invalid (empty id or version 0)
     pub invalid_app_permille: u32,
+    /// chance, per control request, that it is made right at the start of the lifetime (before or
+    /// around the machine's first poll) instead of inside an in-flight operation
+    pub request_at_start_permille: u32,
     pub preset_permille: u32,
     pub extra_fields_permille: u32,
     pub system_app_nonzero_permille: u32,
@@ -335,6 +338,7 @@ impl Profile {
             max_lifetimes: 1,
             apps_max: 3,
             invalid_app_permille: 0,
+            request_at_start_permille: 0,
             preset_permille: 200,
             extra_fields_permille: 200,
             system_app_nonzero_permille: 0,
